@@ -621,6 +621,17 @@ namespace fsh
 
         bool dispatch(const std::string& cmd, Line& l)
         {
+            static const char* flow_cmds[] = { "set_mask", "set_base", "set_param", "update", "acc",
+                                               "basins", "bgraph", "spl", "kernel", "snapcall", "adi" };
+            if (cmd != "graph" && !graph)
+            {
+                for (auto fc : flow_cmds)
+                    if (cmd == fc)
+                    {
+                        os << "O " << cmd << " nograph\n";
+                        return true;
+                    }
+            }
             if (cmd == "graph")
                 call_graph(l);
             else if (cmd == "set_mask")
